@@ -1086,6 +1086,12 @@ def check_helpers(ctx, rng, ali, rows, seqs, kind, size):
             ctx.fail("score_vs_model", "score() = %r, column-wise recomputation %r" % (got, e1), gap_penalty=gp, terminal_penalty=tp)
         if e1 != e2:
             ctx.note("score_straddling_gap_run_undocumented")
+    # the documented defaults: gap_penalty=-10, terminal_penalty=True
+    ctx.op("score[defaults]")
+    got = align.score(ali, matrix)
+    e1, e2 = model_score(rows, codes, M, -10, True, True), model_score(rows, codes, M, -10, True, False)
+    if int(got) != e1 and not (n > 2 and int(got) == e2):
+        ctx.fail("score_vs_model", "score() with default arguments = %r, column-wise recomputation with gap_penalty=-10, terminal_penalty=True %r" % (got, e1))
     ctx.check(ali.trace.tolist() == rows, "source_untouched", "a helper changed its argument")
 
 
